@@ -19,6 +19,7 @@ NOT_APPLICABLE = {
 PARTIAL = " Partial claim: only the clauses named in the evidence file (coverage.clauses_decided) are decided; coverage.clauses_not_decided lists the rest of the property, which this family of technique cannot reach."
 
 LEVEL_TEXT = {
+    "C13": "Deductive check (Kani/CBMC) of the crate/version policy table of the x-rust-type extension on a statement slice extracted mechanically from convert_rust_extension: one harness per configuration cell with the unknown-crate policy symbolic; crate names, paths and the requirement/version pair are literals (enumerated)." + PARTIAL,
     "C05": "Deductive check (Kani/CBMC) of the generation-time string-length filter against the property's wording (lengths in Unicode scalar values) for every Option<u32> bound pair and every string of at most 2 scalar values (all code points, all UTF-8 widths); bounded in the number of characters, so level `other`, not proof." + PARTIAL,
     "C06": "Deductive check of leaf default validation (type soundness, intrinsic-default and generic-function classification), of enum-default membership and of the property-default classification table over symbolic JSON payloads (all u64 / i64 / finite f64), one harness per type kind; the numeric range clause is C10/P3. Kinds and container shapes are enumerated, so level `other`." + PARTIAL,
     "C07": "Deductive check that the edge relation used by cycle breaking (get_child_ids) is exactly by-value containment and that its slots alias the entry, one harness per kind with symbolic identifiers; vectors of at most 2 children, enum arm not decided (CBMC does not terminate on it). The traversal itself is not verified." + PARTIAL,
@@ -30,6 +31,7 @@ LEVEL_TEXT = {
     "C17": "Deductive check of has_impl against a literal table of std trait facts for the built-in kinds (symbolic trait, kinds enumerated), native types against their registered impls, structs against their default; uses_uuid / uses_chrono set whenever the string-format path chooses such a type (every format string of at most 10 bytes)." + PARTIAL,
 }
 LEVEL_NOTE = {
+    "C13": "Trusted: lib/c13_prepare.py's wrapper around the extracted statements, semver's matches. Not decided: parsing of the extension, the path/crate mismatch message path, type parameters, the newtype wrapper, exhaustive operator coverage.",
     "C05": "Trusted: Kani/CBMC models (refutations are replayed natively), kani/common.rs. Not decided: everything C05 says about emitted impls (token templates), patterns, allow/deny lists, deny_unknown_fields, required.",
     "C06": "Trusted: Kani/CBMC models, serde_json Value/Number constructors, harness support. Not decided: nested defaults, rendering (value.rs), emitted Default impls, native kinds.",
     "C07": "Trusted: Kani/CBMC models, kani/te_support.rs constructors. NOT verified: break_cycles (the traversal), the Enum arm of get_child_ids; a change there is not detected.",
@@ -41,6 +43,7 @@ LEVEL_NOTE = {
     "C17": "Trusted: the literal table of std trait facts in the harness. Not decided: every clause relating the API to emitted items (fields, variants, builder, emitted impls of named types), the remaining uses_* sites.",
 }
 TECHNIQUE = {
+    "C13": "Kani/CBMC postcondition checks on a mechanically extracted statement slice of convert_rust_extension (policy table, symbolic unknown-crate policy)",
     "C05": "Kani/CBMC function-level postcondition check of StringValidator::{is_valid,new} on the real crate, symbolic chars and bounds",
     "C06": "Kani/CBMC postcondition checks of validate_value / validate_default_for_external_enum / has_default on the real crate, symbolic JSON payloads",
     "C07": "Kani/CBMC postcondition + frame check of get_child_ids per entry kind on the real crate",
